@@ -54,8 +54,11 @@ func (g *c10Gen) tok(name string) string {
 func (g *c10Gen) numExpr(depth int) string {
 	switch c := g.choose(g.name("num")); {
 	case c == 0:
-		if g.choose(g.name("var")) == 0 {
+		switch g.choose(g.name("var")) {
+		case 0:
 			return "x"
+		case 2:
+			return "f()"
 		}
 		return "y"
 	case c == 1:
@@ -106,6 +109,9 @@ func c10Equivalent(typ, a, b string) (same bool, detail string, err error) {
 	}
 	if typ == "gsxFloat" {
 		tdecl = "type T float64"
+	}
+	if strings.Contains(a, "f()") || strings.Contains(b, "f()") {
+		return c10EquivalentImpure(dir, a, b)
 	}
 	src := fmt.Sprintf(`package main
 
@@ -165,6 +171,9 @@ func replayC10(rc *runCtx, h *harness, v *interp.Violation, file string) (bool, 
 		depth = int(d)
 	}
 	expr := g.boolExpr(depth)
+	if strings.Contains(expr, "f()") {
+		decl += "var gsxCalls int\n\nfunc f() int { gsxCalls++; return gsxCalls }\n\n"
+	}
 	src := fmt.Sprintf("package cand\n\n%sfunc gsxF(x, y %s) bool {\n\treturn %s\n}\n", decl, typ, expr)
 	res, err := runRealised("boolExprSimplify", nil, []string{src}, "")
 	if err != nil {
@@ -379,4 +388,63 @@ func replayRuleVersion(rc *runCtx, h *harness, v *interp.Violation, file string)
 		return false, "native: " + lastLines(out, 3)
 	}
 	return false, "the real checkers honour the configured version in both orders"
+}
+
+// c10EquivalentImpure: original and suggestion with the impure operand f();
+// both are run on every sequence of f-values from {-2..2}^3 (repeated) and a
+// small grid of x, y; results and the number of f() evaluations must agree.
+func c10EquivalentImpure(dir, a, b string) (bool, string, error) {
+	src := fmt.Sprintf(`package main
+
+import "fmt"
+
+type T = int
+
+var (
+	seq   [3]T
+	calls int
+)
+
+func f() T { v := seq[calls%%3]; calls++; return v }
+
+func a(x, y T) bool { return %s }
+func b(x, y T) bool { return %s }
+
+func main() {
+	for s0 := T(-2); s0 <= 2; s0++ {
+		for s1 := T(-2); s1 <= 2; s1++ {
+			for s2 := T(-2); s2 <= 2; s2++ {
+				seq = [3]T{s0, s1, s2}
+				for x := T(-3); x <= 3; x++ {
+					for y := T(-3); y <= 3; y++ {
+						calls = 0
+						ra := a(x, y)
+						ca := calls
+						calls = 0
+						rb := b(x, y)
+						cb := calls
+						if ra != rb || ca != cb {
+							fmt.Printf("DIFF x=%%v y=%%v f-values=%%v original=%%v after %%d call(s) of f, suggested=%%v after %%d\n", x, y, seq, ra, ca, rb, cb)
+							return
+						}
+					}
+				}
+			}
+		}
+	}
+	fmt.Println("SAME")
+}
+`, a, b)
+	file := filepath.Join(dir, "main.go")
+	if err := os.WriteFile(file, []byte(src), 0o644); err != nil {
+		return false, "", err
+	}
+	cmd := exec.Command("go", "run", file)
+	cmd.Env = append(os.Environ(), "GOFLAGS=-mod=mod", "GOPROXY=off", "GOSUMDB=off", "GOTOOLCHAIN=local")
+	out, err := cmd.CombinedOutput()
+	text := strings.TrimSpace(string(out))
+	if err != nil {
+		return false, "", fmt.Errorf("compile/run failed: %v: %s", err, lastLines(text, 3))
+	}
+	return strings.HasPrefix(text, "SAME"), text, nil
 }
